@@ -99,7 +99,8 @@ async def server_side(net, hyg, plan):
         # alice may be connected twice, bob once: what a hostile session leaves of these limits shows afterwards
         return [aioftp.User(base_path=base), aioftp.User("alice", "secret", base_path=base, maximum_connections=2),
                 aioftp.User("bob", "pw", base_path=base, maximum_connections=1)]
-    w = W.World(net, tree=corpus_tree(["", "/by"]), users=users, maximum_connections=6)
+    w = W.World(net, tree=corpus_tree(["", "/by"]), users=users, maximum_connections=6,
+                **({"wait_future_timeout": None} if plan.get("wft_none") else {}))
     await w.start()
     try:
         by = Session(net, 2121, name="bystander")
@@ -149,6 +150,14 @@ async def server_side(net, hyg, plan):
                         break
                     if rep == b"":
                         break
+                if rng.random() < 0.35:
+                    # a transfer that will never get its data connection, then premature end of stream
+                    p.writer.write(b"USER anonymous\r\n" + rng.choice([b"EPSV", b"PASV"]) + b"\r\n" +
+                                   rng.choice([b"LIST /", b"RETR /f.bin", b"STOR /never", b"MLSD /"]) + b"\r\n")
+                    try:
+                        await asyncio.wait_for(p.reader.read(65536), 0.05)
+                    except asyncio.TimeoutError:
+                        pass
                 if rng.random() < 0.5:
                     p.writer.write(mutate(rng, rng.choice(VALID_CMDS)))  # no line end before EOF
                 p.cut(rng.choice(["fin", "rst"]))
@@ -634,7 +643,7 @@ def gen_cases(tier, seed):
     names = ["retr_pasv", "stor_pasv", "mlsd", "walk", "two_transfers", "rename", "list"]
     for i in range(240 if tier == "quick" else 20000):
         cases.append({"kind": "server", "plan": {"seed": seed * 100003 + i, "lines": rng.choice([5, 20, 60]),
-                                                 "bystander": names[i % len(names)] if i % 3 else None}})
+                                                 "bystander": names[i % len(names)] if i % 3 else None, "wft_none": i % 4 == 1}})
     npar = 100000 if tier == "quick" else 5000000
     per = 5000 if tier == "quick" else 50000
     for i in range(npar // per):
